@@ -215,6 +215,16 @@ func Happened(name string, idx ...int) bool   { return true }
 // ThreadID is the index of the current model thread (0 = harness main; spawn order). Engine only.
 func ThreadID() int { return 0 }
 
+// InAlphabet: every character of s is one of the characters of alphabet (engine: a regular-language constraint).
+func InAlphabet(s, alphabet string) bool {
+	for _, c := range s {
+		if !strings.ContainsRune(alphabet, c) {
+			return false
+		}
+	}
+	return true
+}
+
 // Time builds a time.Time from a nanosecond instant (symbolically: the engine's time model).
 func Time(ns int64) time.Time { return time.Unix(0, ns) }
 
